@@ -266,11 +266,13 @@ func evalCases(eng *engine, vars []envVar, vals map[string]*val.Val, src string,
 		human = fmt.Sprintf("%s…(%d bytes)", human[:240], len(src))
 	}
 	if perr != nil {
-		return []Case{{Human: human, Want: "syntax-error", Tags: []string{"prog:syntax-error", tag}}}
+		return []Case{{Human: human, Want: "syntax-error", Tags: []string{"prog:syntax-error", tag}},
+			pipelineCase(eng, vars, vals, src, human, tag, nil)}
 	}
 	parsedBefore := encExpr(parsed)
 	d := trans.Desugar(parsed)
 	plain := encExpr(d)
+	pc := pipelineCase(eng, vars, vals, src, human, tag, d)
 	ty, cerr := checkExpr(eng, vars, d)
 	cc := Case{Human: "check " + human, Tags: []string{tag}}
 	// the parsed tree must be left untouched by desugaring AND by what is done to its result
@@ -287,11 +289,11 @@ func evalCases(eng *engine, vars []envVar, vals map[string]*val.Val, src string,
 		if strings.HasPrefix(cls, "internal:") {
 			cc.Oracle, cc.OracleID = "type checker fails with an internal fault: "+cls, "check-internal-fault"
 		}
-		return append(out, cc)
+		return append(out, cc, pc)
 	}
 	cc.Want = sxList("ok", encTy(ty), encExpr(d))
 	cc.Tags = append(cc.Tags, "check:accept", "type:"+ty.Kind.String())
-	out = append(out, cc)
+	out = append(out, cc, pc)
 
 	rc := Case{Human: "run " + human, Tags: []string{tag}, Nontriv: true}
 	rc.Req = sxList("run", "plain", eng.funsx, encVars(vars, vals), externsFor(d), encExpr(d))
